@@ -60,4 +60,8 @@ META["C19"] = {
     "text": "Bounded symbolic model checking: from one arbitrary symbolic interpreter state the real Step is executed twice - without a debugger and with a recording debugger that scribbles over every stack slice and counter of every snapshot it receives; the solver decides equality of verdict, stacks and control state for every opcode, and the callback log is checked against the documented order; whole executions of short scripts are compared the same way through Engine.Execute.",
     "note": "Trusted: gosym alias-exact heap (a snapshot sharing memory with the thread would make the two runs differ). Bounds as C07 (stack depth, item size, loop cut); signature opcodes excluded; debug.NewDebugger fan-out helper not covered.",
 }
+META["C18"] = {
+    "text": "Lock discipline decided by schedule queries: each FeeQuote / FeeQuotes method is executed symbolically on a shared object with mutex operations and every access to the shared cells and maps logged; for every ordered pair of methods (self-pairs included) and every conflicting access pair an SMT query over integer time stamps (program order, RWMutex exclusion) asks for a schedule in which the two accesses are adjacent - unsat for all pairs = data-race free for two threads with one call each; a sat answer is confirmed by running that pair under the Go race detector. Engine statelessness: a shared-write monitor over every explored Engine.Execute path shows no package-level state is written, so concurrent executions on distinct transactions cannot interfere.",
+    "note": "Level is bounded model checking of two-call schedules; more than two concurrent calls are covered by the reduction argument in DESIGN.md (the only synchronisation is the two mutexes; no method blocks on state), not explored. Trusted: gosym event extraction (sync.RWMutex as lock events, encoding/json model reads the map), Go memory model edges Unlock->Lock. Writes inside stubbed dependencies are outside the claim.",
+}
 NOT_APPLICABLE = {}
